@@ -5,12 +5,15 @@ O1 == 0 + (NStrings)
 O2 == O1 + (NBoundPaths)
 O3 == O2 + (NOpenPaths)
 O4 == O3 + (Len(ForIdx))
-Count == O4
+O5 == O4 + NPrefixExt
+Count == O5 + NPathEveryChar
 ItemAt(g) ==
   IF g <= O1 THEN StringAt(g - 0)
   ELSE IF g <= O2 THEN BoundPathAt(g - O1)
   ELSE IF g <= O3 THEN OpenPathAt(g - O2)
-  ELSE ForIndexAt(g - O3)
+  ELSE IF g <= O4 THEN ForIndexAt(g - O3)
+  ELSE IF g <= O5 THEN PrefixExtAt(g - O4)
+  ELSE PathEveryCharAt(g - O5)
 VARIABLE n
 INSTANCE GenBase
 =============================================================================
